@@ -421,6 +421,7 @@ fn decode(api: &Api, input: &str, out: &mut Out, kv: &Kv) {
                 *cnt += 1;
                 if *cnt <= 3 {
                     out.line(&json!({"line": i, "class": class, "why": why, "declared": vname, "declared_bits": len, "hex": hex(bytes), "case": c}));
+                out.flush(); // the watchdog may end the process at a later case: nothing found so far may be lost
                 }
             }
         }
@@ -540,6 +541,7 @@ fn proto(api: &Api, input: &str, out: &mut Out, kv: &Kv) {
             }
             *stats.entry(format!("bad:{}", class)).or_insert(0) += 1;
             out.line(&json!({"line": i, "class": class, "why": why, "case": c}));
+                out.flush(); // the watchdog may end the process at a later case: nothing found so far may be lost
         }
     }
     if let Some(e) = events.as_mut() {
@@ -664,6 +666,7 @@ fn pdecode(api: &Api, input: &str, out: &mut Out, kv: &Kv) {
             *cnt += 1;
             if *cnt <= 2 {
                 out.line(&json!({"index": idx, "class": class, "why": why, "type": ti, "hex": hex(bytes), "fault": what}));
+                out.flush(); // the watchdog may end the process at a later case: nothing found so far may be lost
             }
         }
     };
